@@ -32,6 +32,7 @@ class Res:
         self.violations = []         # dicts: key, desc, log, expected, observed
         self.inconclusive = []
         self.extra = {}
+        self.nt_count = 0             # distinct non-trivial cases counted by an engine itself (disjoint from .nontrivial)
 
     def nt(self, *desc):
         self.nontrivial.add(hashlib.md5(repr(desc).encode()).hexdigest()[:12])
@@ -142,6 +143,7 @@ def main(module, argv):
     total = Res()
     for r in results:
         total.evals += r.evals
+        total.nt_count += r.nt_count
         total.nontrivial |= r.nontrivial
         total.counters.update(r.counters)
         total.states |= r.states
@@ -179,12 +181,12 @@ def main(module, argv):
     problems = list(total.inconclusive)
     if hasattr(module, "finish"):
         problems += module.finish(total, tier) or []
-    if len(total.nontrivial) < 2:
+    if len(total.nontrivial) + total.nt_count < 2:
         problems.append("fewer than 2 distinct non-trivial cases observed")
 
     cov = {
         "evaluations": total.evals,
-        "distinct_nontrivial": len(total.nontrivial),
+        "distinct_nontrivial": len(total.nontrivial) + total.nt_count,
         "rule": module.RULE,
         "samples": total.samples[:6],
         "events": dict(total.counters),
@@ -206,7 +208,7 @@ def main(module, argv):
     json.dump(ev, open(os.path.join(EVDIR, prop + ".json"), "w"), indent=1)
 
     print("%s %s seed=%d: %d evaluations, %d distinct non-trivial, %d violations, %d known, %.1fs" % (
-        prop, tier, seed, total.evals, len(total.nontrivial), len(new_viol), len(seen_known), time.time() - t0))
+        prop, tier, seed, total.evals, len(total.nontrivial) + total.nt_count, len(new_viol), len(seen_known), time.time() - t0))
     if rc == 0 and problems:
         for p in problems[:10]:
             print("INCONCLUSIVE property=%s %s" % (prop, p))
